@@ -98,6 +98,13 @@ impl Module for M {
                     emit(format!("ellipse.points -7 3 {} {}", l, t));
                 }
             }
+            // display-scale ellipses (products of the axes beyond 2^16: the `u64` arithmetic of
+            // `EllipseContains`; seeded change C18-r2-1 multiplied them in `u32`)
+            let big: &[(u32, u32)] =
+                if quick { &[(320, 240), (257, 255), (1000, 70)] } else { &[(320, 240), (240, 320), (257, 255), (400, 300), (1000, 70), (70, 1000), (512, 512), (640, 480)] };
+            for (w, h) in big {
+                emit(format!("ellipse.points -150 -100 {} {}", w, h));
+            }
             let n = if quick { 60 } else { 600 };
             for _ in 0..n {
                 let scale = *rng.pick(&[8i64, 64, 1024, 1 << 20]);
